@@ -131,6 +131,8 @@ def gen_library_spec(rnd, prior_spec, n=None, allow_f4=True):
         # the two conversion routes (pack vs read_batch) may legitimately differ there (DESIGN 2.7)
         "jitter": "zero" if dtype == "f4" else rnd.choice(["zero", "zero", "sampled"]),
         "with_ln_prior": True,
+        # a library may carry its own reference epoch (prior.sample(..., t_ref=...), or samples of an earlier run)
+        "t_ref": rnd.choice([None, None, None, None, 55111.5, 58000.25]),
     }
 
 
@@ -175,7 +177,12 @@ class Library:
         q["omega"] = (cols["omega"] * u.rad).to(u.Unit(un["omega"]))
         q["M0"] = (cols["M0"] * u.rad).to(u.Unit(un["M0"]))
         q["s"] = (cols["s"] * u.km / u.s).to(u.Unit(un["s"]))
-        samples = tj.JokerSamples(t_ref=None)
+        lt = spec.get("t_ref")
+        if lt is not None:
+            from astropy.time import Time
+
+            lt = Time(float(lt), format="mjd", scale="tcb")
+        samples = tj.JokerSamples(t_ref=lt)
         order = spec.get("column_order") or ["P", "e", "omega", "M0", "s"]
         for k in order:
             samples[k] = u.Quantity(q[k].value.astype(dt), q[k].unit)
